@@ -9,8 +9,8 @@ PLANS = {
     'quick': [('GOPS', 'structure', 4, 1), ('GOPS2', 'structure', 3, 1), ('GOPS', 'all', 3, 2),
               ('GOPS', 'structure', 2, 1, 'auto'), ('GOPS', 'all', 2, 1, 'plain', 'busy'),
               ('GOPS', 'all', 2, 1, 'plain', 'reloaded')],
-    'thorough': [('GOPS', 'structure', 5, 1), ('GOPS2', 'structure', 5, 1), ('GOPS', 'all', 4, 2),
-                 ('GOPS2', 'all', 4, 2), ('GOPS', 'all', 3, 2, 'plain', 'busy'), ('GOPS', 'all', 3, 2, 'plain', 'reloaded'),
+    'thorough': [('GOPS', 'structure', 5, 1), ('GOPS2', 'structure', 4, 1), ('GOPS', 'all', 4, 1), ('GOPS', 'all', 3, 2),
+                 ('GOPS2', 'all', 3, 2), ('GOPS', 'all', 3, 1, 'plain', 'busy'), ('GOPS', 'all', 3, 1, 'plain', 'reloaded'),
                  ('GOPS', 'all', 3, 1, 'auto')],
 }
 
